@@ -7,7 +7,7 @@ import json
 import os
 import sys
 
-from .core import run_check
+from .core import big_stack, run_check
 
 # property id -> (module, evidence level)
 REGISTRY: dict[str, tuple[str, str]] = {}
@@ -59,7 +59,7 @@ def main(argv=None) -> int:
         from . import dag
 
         dag.K_MULT = 4      # four times as many independent random interpretations for every identity test
-    return run_check(pid, lambda chk: mod.run(chk), args.tier, seed, level, only)
+    return run_check(pid, lambda chk: big_stack(lambda: mod.run(chk)), args.tier, seed, level, only)
 
 
 if __name__ == "__main__":
